@@ -1121,6 +1121,10 @@ func checkC17(c *Ctx) int {
 	}
 	// ---- part C: direct ReadBlock / WriteBlock sweep
 	nC, distinctC := ivTransferSweep(c, run, rng)
+	// ---- part D: stacks of XY images through the load command of the RPC path (c17_rpc.go, specs/ImageSlices.tla)
+	nSliceSeqs, nSliceVoxels, _ := imgSliceReplay(c, run)
+	run.Set("slice_stack_sequences_replayed", nSliceSeqs)
+	run.Set("slice_stack_voxels_compared", nSliceVoxels)
 
 	if strayDeaths > 0 && run.Violations() == 0 {
 		infra("the server process died %d times during the run without a reproducible cause", strayDeaths)
